@@ -453,9 +453,15 @@ class RenderContext:
             # tag namespaces need to be copied.
             ctx.tag_namespace["extends"] = self.tag_namespace["extends"]
         else:
+            # The globals of a copied context include the arguments it was copied
+            # with. An isolated copy starts from the outermost context's globals.
+            root = self
+            while root.parent_context is not None:
+                root = root.parent_context
+
             ctx = self.__class__(
                 template or self.template,
-                globals=ReadOnlyChainMap(namespace, self.globals),
+                globals=ReadOnlyChainMap(namespace, root.globals),
                 disabled_tags=disabled_tags,
                 copy_depth=self._copy_depth + 1,
                 parent_context=self,
